@@ -3,7 +3,7 @@ from geom import G, mk_point, fl3, pclose, dot, norm
 from geom import ConvexPolygon, ConvexPolyhedron
 
 POLYH = ["tet", "tet2", "cube", "box", "obl", "prism", "pyr", "octa", "wedge", "pprism", "ppyr", "hprism"]
-POLYG = ["tri", "triObl", "sq", "rectObl", "trap", "par", "pent", "pentObl", "hex", "hexObl"]
+POLYG = ["tri", "triObl", "sq", "rectObl", "trap", "par", "pent", "pentObl", "hex", "hexObl", "stripH", "stripV", "triUp", "triDown"]
 
 
 def jobs(tier, seed, invs):
